@@ -336,20 +336,20 @@ def check(F, H1, role='both'):
             H1.violation(('anchor-lost', name), '%s or its framing constant not found' % name)
             continue
         H1.fn(name)
-        check_parser(b, C, H1)
+        check_parser(b, C, H1, F)
     check_ecu_source(F, H1)
     return {'bits': hc, 'size_reader': size_r, 'size_writer': size_w}
 
 
-def check_parser(b, C, H1):
+def check_parser(b, C, H1, F=None):
     """name-independent shape check of one parse function with framing constant C"""
     cfg = CFG(b)
     Ef = ExprBuilder(cfg, fold_named=True)
     STD = r'DltStandardHeader::std_ext_header_size\([^()]*(\([^()]*(\([^()]*\)[^()]*)*\)[^()]*)*\)'
     probs = []
-    payload = fh = stdh_from = None
+    payload = fh = stdh_from = fh_exprs = None
     consumed_local = None
-    ok_ret = None
+    ok_ret = ok_block = None
     for blk in b.blocks:
         if blk.cleanup:
             continue
@@ -357,6 +357,7 @@ def check_parser(b, C, H1):
             p = blk.term.callee.path
             if p.endswith('DltMessage::from_headers'):
                 fh = [show(Ef.operand(a)) for a in blk.term.args]
+                fh_exprs = [Ef.operand(a) for a in blk.term.args]
             if p.endswith('DltStandardHeader::from_buf'):
                 stdh_from = show(Ef.operand(blk.term.args[0]))
             if p.endswith('From::from') and 'Vec<u8>' in blk.term.dest.t:
@@ -364,11 +365,23 @@ def check_parser(b, C, H1):
         for s in blk.stmts:
             if s.k == 'assign' and s.place.is_local and s.place.l == 0 and s.rv['k'] == 'agg' and s.rv.get('variant') == 'Ok':
                 ok_ret = Ef.rvalue(s.rv)
+                ok_block = blk.i
     H1.sites += 6
 
     def has_std(x):
         return 'std_ext_header_size(' in x
-    # payload slice: data[A .. A + (B as usize)], A = C + std_ext, B = stdh.len - std_ext
+    # offsets are compared as linear forms over {framing constant, hdr = std_ext_header_size(), len = stdh.len, N = data.len()}:
+    # `C + hdr + (len - hdr)`, `C + len`, a remaining-bytes counter decremented step by step and a value computed by a small
+    # helper all denote the same offset
+    import linform
+    data_names = [b.name_of(i) or 'arg%d' % i for i, t in enumerate(b.arg_types(), start=1) if t == '&[u8]']
+    dn = re.escape(data_names[0]) if data_names else 'data'
+    atoms = [('hdr', lambda e, se: isinstance(e, tuple) and e[0] == 'call' and e[1].endswith('DltStandardHeader::std_ext_header_size')),
+             ('len', lambda e, se: se.endswith('.len') and 'DltStandardHeader::from_buf(' in se),
+             ('N', lambda e, se: re.match(r'^(slice::len\(&?\(?\*?%s\)?\)|PtrMetadata\([^,]*%s[^,]*\))$' % (dn, dn), se) is not None)]
+    L = linform.Lin(F, b, cfg, atoms)
+    want_start = {1: C, 'hdr': 1}
+    want_end = {1: C, 'len': 1}
     rng = None
     if payload is not None:
         for x in walk(payload):
@@ -378,55 +391,31 @@ def check_parser(b, C, H1):
         probs.append(('payload-slice', 'payload is not taken from a slice data[a..b]'))
     else:
         A, Bend = rng[2]
-        sA = show(A)
-        okA = isinstance(A, tuple) and A[0] == 'bin' and A[1] == 'Add' and fold(A[2]) == C and has_std(show(A[3]))
-        okB = isinstance(Bend, tuple) and Bend[0] == 'bin' and Bend[1] == 'Add' and Bend[2] == A and show(Bend[3]).startswith('(Sub(') and '.len, ' in show(Bend[3]) and has_std(show(Bend[3]))
-        if not okA:
-            probs.append(('payload-offset', 'payload starts at %s (expected %d + std_ext_header_size())' % (sA[:80], C)))
-        if not okB:
-            probs.append(('payload-size', 'payload ends at %s (expected start + (stdh.len - std_ext_header_size()))' % show(Bend)[:100]))
-    if not fh or not any(re.search(r'Range::Range\{Add\(%d, 4\), Add\(%d, \(DltStandardHeader::std_ext_header_size' % (C, C), a) for a in fh):
+        lA, lB = L.lin(A), L.lin(Bend)
+        if lA != want_start:
+            probs.append(('payload-offset', 'payload starts at %s (expected %d + std_ext_header_size())' % (linform.fmt(lA)[:80], C)))
+        if lB != want_end:
+            probs.append(('payload-size', 'payload ends at %s (expected %d + stdh.len, i.e. start + (stdh.len - std_ext_header_size()))' % (linform.fmt(lB)[:100], C)))
+    ah_ok = False
+    for a in (fh_exprs or []):
+        for x in walk(a):
+            if isinstance(x, tuple) and x and x[0] == 'agg' and x[1].endswith('Range::Range') and len(x[2]) == 2:
+                if L.lin(x[2][0]) == {1: C + 4} and L.lin(x[2][1]) == want_start:
+                    ah_ok = True
+    if not ah_ok:
         probs.append(('additional-header-slice', 'from_headers gets %s (expected the slice [%d+4 .. %d+std_ext_header_size()])' % ([a[:80] for a in (fh or [])][2:3], C, C)))
     if not stdh_from or 'RangeFrom::RangeFrom{%d}' % C not in stdh_from:
         probs.append(('stdheader-offset', 'standard header parsed from %s (expected data[%d..])' % ((stdh_from or '')[:60], C)))
-    # consumed = len(data) - R where R starts as len(data) and is decremented by C, std_ext, payload_size
+    # consumed = framing + len (however it is spelled: data.len() - remaining with remaining decremented by framing, headers and
+    # payload; a local computed early; the second component returned by a helper)
     if ok_ret is None:
         probs.append(('ok-return', 'no Ok((consumed, msg)) return found'))
     else:
         tup = [x for x in walk(ok_ret) if isinstance(x, tuple) and x and x[0] == 'agg' and x[1] == 'tuple']
         cons = tup[0][2][0] if tup and tup[0][2] else None
-        if not (isinstance(cons, tuple) and cons[0] == 'bin' and cons[1] == 'Sub' and show(cons[2]).startswith('slice::len(') and isinstance(cons[3], tuple) and cons[3][0] == 'place' and len(cons[3]) == 2):
-            probs.append(('consumed', 'consumed bytes are %s (expected data.len() - remaining)' % show(cons)[:80]))
-        else:
-            rname = cons[3][1]
-            ls = b.locals_named(rname)
-            decs = []
-            init = []
-            for blk in b.blocks:
-                if blk.cleanup:
-                    continue
-                for s in blk.stmts:
-                    if s.k == 'assign' and s.place.is_local and s.place.l in ls:
-                        e = Ef.rvalue(s.rv)
-                        if isinstance(e, tuple) and e[0] == 'bin' and e[1] == 'Sub' and e[2] == ('place', rname):
-                            decs.append(e[3])
-                        else:
-                            init.append(show(e))
-                if blk.term.k == 'call' and blk.term.dest.is_local and blk.term.dest.l in ls:
-                    init.append(show(('call', blk.term.callee.path, tuple(Ef.operand(a) for a in blk.term.args))))
-            kinds = []
-            for d in decs:
-                sd = show(d)
-                if fold(d) == C:
-                    kinds.append('framing')
-                elif sd.startswith('(Sub(') and has_std(sd):
-                    kinds.append('payload')
-                elif has_std(sd):
-                    kinds.append('headers')
-                else:
-                    kinds.append('other:' + sd[:30])
-            if sorted(kinds) != ['framing', 'headers', 'payload'] or not (len(init) == 1 and init[0].startswith('slice::len(')):
-                probs.append(('remaining-accounting', 'the remaining-bytes counter is initialised with %s and decremented by %s (expected data.len(), then framing %d, header size, payload size once each)' % (init, kinds, C)))
+        lc = L.lin(cons, at=ok_block) if cons is not None else None
+        if lc != want_end:
+            probs.append(('consumed', 'consumed bytes are %s (expected %d + stdh.len = the bytes of this message)' % (linform.fmt(lc) if lc is not None else '?', C)))
     # the "probably corrupt" heuristic (is a second frame marker hidden inside this message?) may only run when the bytes
     # that follow the message are visible: every use of the marker predicate is dominated by `remaining >= 4`.  Without
     # that look-ahead the absence of a following marker proves nothing and a well-formed last message of a buffer /
